@@ -61,7 +61,14 @@ type Ctx struct {
 var registry []*Rule
 
 // Register adds a rule.
-func Register(r *Rule) { registry = append(registry, r) }
+func Register(r *Rule) {
+	for _, p := range extraProps[r.ID] {
+		if !hasProp(r.Props, p) {
+			r.Props = append(r.Props, p)
+		}
+	}
+	registry = append(registry, r)
+}
 
 // All returns all rules sorted by id.
 func All() []*Rule {
